@@ -7,6 +7,7 @@ HOOKS = {
     "lexer_hooks.go": "internal/ebnf/lexer/zz_verif_hooks.go",
     "parser_hooks.go": "internal/ebnf/parser/zz_verif_hooks.go",
     "spec_hooks.go": "internal/ebnf/parser/spec/zz_verif_hooks.go",
+    "regexparser_hooks.go": "internal/regex/parser/zz_verif_hooks.go",
     "regexast_hooks.go": "internal/regex/parser/ast/zz_verif_hooks.go",
     "golang_hooks.go": "internal/generate/golang/zz_verif_hooks.go",
 }
